@@ -20,6 +20,7 @@ import os
 import pickle
 import re
 import sys
+import traceback
 
 from core.engine import Property, F
 from core.prng import Rng
@@ -311,18 +312,75 @@ def run_once(case, cfg, how="inproc", sched=0, built=None, trace=None):
     try:
         _ctx_set((BasicLogger(sink), NullCacher(), {}, {}))
         b = built or build(case)
+        before = [snapshot(l) for l in b.lrns]
         multi = cfg[0] > 1 or cfg[1] != 0
         if how == "sim" and multi:
             cmp.Multiprocessor = make_sim(sched, trace)
         res = b.exp.run(processes=cfg[0], maxchunksperchild=cfg[1], maxtasksperchunk=cfg[2], seed=case["seed"])
         out = {"result": canon_result(res), "log": [str(x) for x in sink.items]}
         out["lrn_states"] = [[getattr(l, "n", None), getattr(l, "acc", None)] for l in b.lrns]
+        out["lrn_modified"] = [x is not None and snapshot(l) != x for l, x in zip(b.lrns, before)]
+        out["triples"] = [list(t) for t in b.triples]
         out["store_clean"] = "experiment_seed" not in CobaContext.store
-        out["built"] = b
         return out
     finally:
         cmp.Multiprocessor = old_mp
         _ctx_set(saved)
+
+
+def snapshot(lrn):
+    try:
+        return pickle.dumps(lrn.__dict__)
+    except Exception:
+        return None
+
+
+def isolated(fn, *args, **kw):
+    """run fn in a forked child of this (pristine) process and return its result: every experiment run of a case starts
+    from the same process state, so module- or class-level state a run leaves behind cannot reach the next run — in
+    particular not the reference runs the other runs are compared with"""
+    r, w = os.pipe()
+    pid = os.fork()
+    if pid == 0:
+        try:
+            os.close(r)
+            try:
+                out = ("ok", fn(*args, **kw))
+            except BaseException as e:
+                out = ("err", "%s: %s\n%s" % (type(e).__name__, e, traceback.format_exc()[-1500:]))
+            with os.fdopen(w, "wb") as f:
+                f.write(pickle.dumps(out))
+            try:
+                import multiprocessing
+                for c in multiprocessing.active_children():
+                    c.terminate()
+            except BaseException:
+                pass
+        finally:
+            os._exit(0)
+    os.close(w)
+    try:
+        with os.fdopen(r, "rb") as f:
+            data = f.read()
+    finally:
+        try:
+            os.kill(pid, 9)
+        except OSError:
+            pass
+        try:
+            os.waitpid(pid, 0)
+        except OSError:
+            pass
+    if not data:
+        raise RuntimeError("isolated run died without a result")
+    kind, val = pickle.loads(data)
+    if kind == "err":
+        raise RuntimeError("isolated run failed: " + val)
+    return val
+
+
+def run_iso(case, cfg, how="inproc", sched=0):
+    return isolated(run_once, case, cfg, how, sched)
 
 
 def markers(log_lines):
@@ -516,12 +574,34 @@ def diff_only_in_envs(case, a, b, bad_envs):
     return True
 
 
+INFO_KEY = re.compile(r"^n_(score|pred|learn)\d+$")
+
+
+def logged_envs(case):
+    if case["kind"] != "builtin":
+        return set()
+    return envs_with(case, lambda r, ops: bool(r.get("logged")))
+
+
+def has_info_learner(case):
+    return case["kind"] == "builtin" and any(r.get("type") == "info" for r in case["lrns"])
+
+
+def strip_info(rows):
+    """interaction rows without the columns that come from CobaContext.learning_info"""
+    return [[i, {k: v for k, v in row.items() if not INFO_KEY.match(k)}] for i, row in rows]
+
+
 def known_sig(case, a, b):
     """narrow signatures of the recorded findings (None when the difference is something else)"""
     if diff_only_in_envs(case, a, b, cached_failing_envs(case)):
         return "cache-after-failed-read"
-    if diff_only_in_envs(case, a, b, logged_shuffled_envs(case)):
-        return "logged-shuffle-seed"
+    # finding F3: a `logged` environment absorbs learning_info left behind by an earlier evaluation of the same process
+    if has_info_learner(case) and diff_only_in_envs(case, a, b, logged_envs(case)):
+        sa = [[k, strip_info(rows)] for k, rows in a["ints"]]
+        sb = [[k, strip_info(rows)] for k, rows in b["ints"]]
+        if json.dumps(sa, sort_keys=True) == json.dumps(sb, sort_keys=True):
+            return "logged-env-learning-info"
     return None
 
 
@@ -772,11 +852,11 @@ def shrink_case(case):
 
 def snippet_for(case, prop):
     return ("import sys, json; sys.path[:0] = ['/repo', '/verif/harness']\n"
-            "from props.c01 import run_once\n"
+            "from props.c01 import run_iso\n"
             "case = json.loads(%r)\n"
             "if __name__ == '__main__':\n"
             "    for run in case['runs']:\n"
-            "        out = run_once(case, run['cfg'], run['how'], run['sched'])\n"
+            "        out = run_iso(case, run['cfg'], run['how'], run['sched'])      # each run in a forked child of this process\n"
             "        print(run, json.dumps(out['result'], sort_keys=True)[:2000])\n"
             "        print('   exceptions logged:', [l for l in out['log'] if 'TOYFAIL' in l or 'xception' in l][:5])\n" % json.dumps(case))
 
@@ -838,6 +918,7 @@ class C01(Property):
         cs.append(cache_defect_case())
         # fixed finding F2 (e4fe683): logged environment behind shuffle(n=2); the peek of the parameter task must not change later reads
         cs.append({"envs": [{"branches": [[["shuffle", 2]]], "log_seed": 3, "logged": True, "n": 8, "na": 3, "prefix": [], "seed": 5, "src": "linear"}], "kind": "builtin", "lrns": [{"tag": 0, "type": "kwargs"}, {"tag": 1, "type": "kwargs"}, {"eps": 0.05, "seed": 4, "type": "eps"}], "mode": "product", "pe": [1], "pl": [2], "pv": [0], "runs": [{"cfg": [1, 0, 0], "how": "inproc", "sched": 0}, {"cfg": [2, 0, 0], "how": "sim", "sched": 296675}], "seed": 2, "single_eval": True, "vals": [{"eval": "ips", "learn": "off", "record": ["reward"], "seed": 2, "type": "seq"}]})
+        cs += directed_cases()
         # built-in components
         cs.append({"kind": "builtin", "seed": 1, "envs": [{"src": "linear", "n": 12, "na": 3, "seed": 2, "prefix": [["chunk"]], "branches": [[["shuffle", 2]]]}],
                    "lrns": [{"type": "eps", "eps": 0.1, "seed": 1}, {"type": "pmf", "tag": 1}, {"type": "kwargs", "tag": 2}],
@@ -858,7 +939,7 @@ class C01(Property):
         runs = case["runs"]
         outs = []
         for run in runs:
-            o = run_once(case, run["cfg"], run["how"], run["sched"])
+            o = run_iso(case, run["cfg"], run["how"], run["sched"])
             outs.append(o)
             tags.append("how:" + run["how"])
             multi = run["cfg"][0] > 1 or run["cfg"][1] != 0
@@ -882,7 +963,7 @@ class C01(Property):
         if case.get("rerun"):
             tags.append("rerun")
             k = len(runs) - 1
-            again = run_once(case, runs[k]["cfg"], "sim" if runs[k]["how"] == "real" else runs[k]["how"], runs[k]["sched"] + 1)
+            again = run_iso(case, runs[k]["cfg"], "sim" if runs[k]["how"] == "real" else runs[k]["how"], runs[k]["sched"] + 1)
             d = diff_tables(outs[k]["result"], again["result"])
             if d:
                 ks = known_sig(case, outs[k]["result"], again["result"])
@@ -956,6 +1037,55 @@ def small_scope_cases():
             yield {"kind": "toy", "seed": 5, "envs": envs, "lrns": lrns, "vals": vals, "mode": "tuples", "triples": [list(t) for t in ts],
                    "runs": [{"cfg": [1, 0, 0], "how": "inproc", "sched": 0}, {"cfg": [1, 0, 1], "how": "inproc", "sched": 0},
                             {"cfg": [2, 0, 0], "how": "sim", "sched": k}, {"cfg": [3, 1, 2], "how": "sim", "sched": k + 7}]}
+
+
+def directed_cases():
+    """process-global state between evaluations (follow-up round): learning_info left behind by one evaluation, a row-less
+    evaluation in front of others in one chunk, one learner class on a batched and an un-batched environment"""
+    inproc = {"cfg": [1, 0, 0], "how": "inproc", "sched": 0}
+    cs = []
+    # RejectionCB with a learner reporting from score(), then SequentialCB in the same process / in a restarted worker
+    cs.append({"kind": "builtin", "seed": 3,
+               "envs": [{"src": "linear", "n": 30, "na": 3, "seed": 6, "logged": True, "log_seed": 2, "prefix": [], "branches": [[]]},
+                        {"src": "linear", "n": 12, "na": 3, "seed": 5, "prefix": [], "branches": [[]]}],
+               "lrns": [{"type": "info", "tag": 0, "where": ["score"]}, {"type": "info", "tag": 1, "where": []}],
+               "vals": [{"type": "rej", "record": ["reward", "action"], "seed": None}, {"type": "seq", "record": ["reward", "action"], "seed": None}],
+               "mode": "tuples", "triples": [[0, 0, 0], [1, 1, 1]],
+               "runs": [inproc, {"cfg": [1, 1, 0], "how": "sim", "sched": 3}, {"cfg": [2, 0, 1], "how": "sim", "sched": 4}], "rerun": True})
+    # a learner that writes its info in predict and then raises in learn, followed by other evaluations
+    cs.append({"kind": "builtin", "seed": 1,
+               "envs": [{"src": "linear", "n": 8, "na": 2, "seed": 1, "prefix": [], "branches": [[]]}],
+               "lrns": [{"type": "info", "tag": 0, "where": ["predict"], "fail_learn_at": 1}, {"type": "random", "seed": 2}, {"type": "info", "tag": 2, "where": ["learn"]}],
+               "vals": [{"type": "seq", "record": ["reward"], "seed": None}, {"type": "fn"}],
+               "mode": "product", "pe": [0], "pl": [0, 1, 2], "pv": [1, 0],
+               "runs": [inproc, {"cfg": [1, 1, 0], "how": "sim", "sched": 5}, {"cfg": [3, 0, 1], "how": "sim", "sched": 6}]})
+    # rejection sampling accepts nothing for the first learner (score 0): later learners of the chunk must still be evaluated
+    cs.append({"kind": "builtin", "seed": 11,
+               "envs": [{"src": "linear", "n": 40, "na": 3, "seed": 4, "logged": True, "log_seed": 2, "prefix": [["chunk"]], "branches": [[]]}],
+               "lrns": [{"type": "policy", "tag": 0, "p": 0.0}, {"type": "policy", "tag": 1, "p": 1.0 / 3}],
+               "vals": [{"type": "rej", "record": ["reward", "action"], "seed": None}],
+               "mode": "product", "pe": [0], "pl": [0, 1], "pv": [0], "single_eval": True,
+               "runs": [inproc, {"cfg": [1, 0, 1], "how": "inproc", "sched": 0}, {"cfg": [2, 0, 2], "how": "sim", "sched": 7}]})
+    # the same with toy components (model-predicted): the evaluator yields nothing for learners with mult 2
+    cs.append({"kind": "toy", "seed": 2, "envs": [{"tag": 0, "xs": [1, 2, 3], "prefix": [["chunk"]], "branches": [[["shuffle", 2]]]}],
+               "lrns": [{"tag": 0, "mult": 2}, {"tag": 1, "mult": 1}, {"tag": 2, "mult": 2}],
+               "vals": [{"tag": 0, "seed": None, "learn": True, "skip_mult": 2}, {"tag": 1, "seed": 4, "learn": True}],
+               "mode": "product", "pe": [0, 1], "pl": [0, 1, 2], "pv": [0, 1],
+               "runs": [inproc, {"cfg": [1, 0, 1], "how": "inproc", "sched": 0}, {"cfg": [2, 0, 3], "how": "sim", "sched": 8}]})
+    # one learner class that is not batch aware on an un-batched and on a batched environment (real workers: the state in
+    # question would be per OS process)
+    cs.append({"kind": "builtin", "seed": 1,
+               "envs": [{"src": "linear", "n": 6, "na": 3, "seed": 2, "prefix": [], "branches": [[], [["batch", 2]]]}],
+               "lrns": [{"type": "row", "tag": 0}, {"type": "row", "tag": 1}],
+               "vals": [{"type": "seq", "record": ["reward", "action"], "seed": None}],
+               "mode": "product", "pe": [0, 1], "pl": [0, 1], "pv": [0],
+               "runs": [inproc, {"cfg": [2, 1, 1], "how": "real", "sched": 0}]})
+    cs.append({"kind": "builtin", "seed": 1,
+               "envs": [{"src": "linear", "n": 6, "na": 3, "seed": 2, "prefix": [], "branches": [[["batch", 3]], []]}],
+               "lrns": [{"type": "pmf", "tag": 0}], "vals": [{"type": "seq", "record": ["reward", "action"], "seed": None}],
+               "mode": "product", "pe": [0, 1], "pl": [0], "pv": [0],
+               "runs": [inproc, {"cfg": [1, 1, 1], "how": "real", "sched": 0}]})
+    return cs
 
 
 def cache_defect_case():
